@@ -55,7 +55,9 @@ def gen_scripts(ctx, quick):
             tasks = []
             for i, p in enumerate(g["prio"]):
                 tasks.append({"id": "t%d" % (i + 1), "prio": p, "variant": rnd.choice(["run", "run", "start", "signal"]),
-                              "out": rnd.choice(["ok", "ok", "err", "panic"]), "done": rnd.choice([1, 2, 3])})
+                              "out": rnd.choice(["ok", "ok", "err", "panic"]), "done": rnd.choice([1, 2, 3]),
+                              # a high priority microtask may span the start of its module (submitted before Start)
+                              "pre": p == "high" and rnd.random() < 0.5})
             pol = ["sched" if a == 0 else "t%d" % a for a in g["policy"]]
             scripts.append({"tasks": tasks, "threshold": g["threshold"], "expiry": g["expiry"], "policy": pol})
     # burst scripts: more waiting microtasks than the clearance queue holds (the driver runs them with
@@ -148,6 +150,7 @@ def run(ctx):
     }, ["concurrency limits 2 and 3; max delay 10 s (never expires) or 60 ms (expiry scripts: only accounting is judged)",
         "admission probes after quiescence: single low/medium priority microtasks (Run/Start/Signal variants) on the idle "
         "scheduler and then `limit` probes together admitted within 1.5 s, one more held for 200 ms",
+        "after quiescence limit+2 ordinary tasks run (they take time slots from the idle microtask scheduler) before the probes",
         "storm scripts: the done function of 1500 (thorough: 6000) signalled microtasks is called by 4 goroutines at once",
         "yield points compiled in with -tags verif"])
 
